@@ -36,7 +36,9 @@ inductive Bound where
 /-- Scalar expressions in the model value `var`, the data value `data` and the one
 optional extra parameter `param` (threshold / num_trials / b).
 Booleans are numbers (NumPy multiplies arrays by boolean arrays): `lt a b` is `1` where
-`a < b` and `0` elsewhere, `lnot a` is `1` where `a = 0` and `0` elsewhere. -/
+`a < b` and `0` elsewhere, `lnot a` is `1` where `a = 0` and `0` elsewhere; `ite c a b`
+(`np.where(c, a, b)`, a conditional expression, `np.maximum` / `np.minimum`) is `a` where
+`c ≠ 0` and `b` elsewhere. -/
 inductive Expr where
   | var
   | data
@@ -56,6 +58,8 @@ inductive Expr where
   | sign (a : Expr)
   | lt (a b : Expr)
   | lnot (a : Expr)
+  | sqrt (a : Expr)
+  | ite (c a b : Expr)
   deriving Repr, BEq
 
 namespace Expr
@@ -65,19 +69,23 @@ def noVar : Expr → Bool
   | var => false
   | data | param | const _ | pi => true
   | add a b | sub a b | mul a b | div a b | powReal a b | lt a b => a.noVar && b.noVar
-  | neg a | powNat a _ | log a | exp a | abs a | sign a | lnot a => a.noVar
+  | neg a | powNat a _ | log a | exp a | abs a | sign a | lnot a | sqrt a => a.noVar
+  | ite c a b => c.noVar && a.noVar && b.noVar
 
 /-- The expression does not mention the extra parameter. -/
 def noParam : Expr → Bool
   | param => false
   | var | data | const _ | pi => true
   | add a b | sub a b | mul a b | div a b | powReal a b | lt a b => a.noParam && b.noParam
-  | neg a | powNat a _ | log a | exp a | abs a | sign a | lnot a => a.noParam
+  | neg a | powNat a _ | log a | exp a | abs a | sign a | lnot a | sqrt a => a.noParam
+  | ite c a b => c.noParam && a.noParam && b.noParam
 
-/-- The expression is a truth value (only `0` or `1`), syntactically. -/
+/-- The expression is a truth value (only `0` or `1`), syntactically: a comparison, the
+negation of a truth value, or the product (`&`, `np.logical_and`) of two truth values. -/
 def isBool : Expr → Bool
   | lt _ _ => true
   | lnot a => a.isBool
+  | mul a b => a.isBool && b.isBool
   | _ => false
 
 /-- Symbolic derivative with respect to the model value. -/
@@ -97,6 +105,8 @@ def D : Expr → Expr
   | sign _ => const 0
   | lt _ _ => const 0
   | lnot a => neg a.D
+  | sqrt a => div a.D (mul (const 2) (sqrt a))
+  | ite c a b => ite c a.D b.D
 
 def ratToFloat (q : Rat) : Float := Float.ofInt q.num / Float.ofNat q.den
 
@@ -126,6 +136,20 @@ def evalF (x p m : Float) : Expr → Float
   | sign a => signF (a.evalF x p m)
   | lt a b => if a.evalF x p m < b.evalF x p m then 1 else 0
   | lnot a => if a.evalF x p m == 0 then 1 else 0
+  | sqrt a => Float.sqrt (a.evalF x p m)
+  | ite c a b => if c.evalF x p m == 0 then b.evalF x p m else a.evalF x p m
+
+/-- The point lies on a switching point of the expression as it is evaluated in doubles: an `abs` / `sign`
+at zero, a square root of zero or a comparison at equality on the evaluated path.  There the symbolic derivative `D` need not be
+the derivative (the differentiator's precondition `Defined` fails); the harness then compares the gradient
+handle with one-sided difference quotients instead. -/
+def onKink (x p m : Float) : Expr → Bool
+  | var | data | param | const _ | pi => false
+  | add a b | sub a b | mul a b | div a b | powReal a b => a.onKink x p m || b.onKink x p m
+  | neg a | powNat a _ | log a | exp a | lnot a => a.onKink x p m
+  | abs a | sign a | sqrt a => a.evalF x p m == 0 || a.onKink x p m
+  | lt a b => a.evalF x p m == b.evalF x p m || a.onKink x p m || b.onKink x p m
+  | ite c a b => c.onKink x p m || (if c.evalF x p m == 0 then b.onKink x p m else a.onKink x p m)
 
 end Expr
 
